@@ -3,6 +3,10 @@ import itertools
 import json
 
 ENGINE = "entry"
+# per-case limit of the implementation child (default 20 s): the big-multi cases (hundreds of additions / removals on entries
+# of ~1000 fields, each O(n)) need ~0.3 s alone and several seconds under the statement-coverage tracer; on a machine shared
+# with other checks (load ~100 on 16 cores) they crossed 20 s and were reported as raising Timeout
+CASE_TIMEOUT_S = 120
 RULE = ("operation sequences (set_field, e[k]=v, pop, del e[k]; then a probe block of get / in / e[k] on every key of the "
         "pool and the reserved names) over the key pool {a, A, b, ab}: all mutator sequences up to depth 3 (quick) / 4 "
         "and 5 on sub-alphabets (thorough) from several start entries, all interleavings of all seven operations to "
@@ -26,17 +30,33 @@ RULE = ("operation sequences (set_field, e[k]=v, pop, del e[k]; then a probe blo
         "(entries up to 300 fields also against the Coq model), and programs of single operations, runs of additions "
         "and removals that cross 256 / 512 / 1024 fields in both directions (membership / get / length asked before and "
         "after each one near the thresholds), twins of large entries and Field objects moved between them, every entry "
-        "compared with its reference dict after every step (views in full, keyed accessors on the keys named above). "
+        "compared with its reference dict after every step (views in full, keyed accessors on the keys named above); "
+        "WORLDS of three and more entries obtained in every way the library builds them: parsed (stack [] / default / default in "
+        "copy mode; into a fresh library or one of an earlier call; the same text again in a later call) from documents "
+        "in random layouts whose entries have the forms @t{k}, @t{k,} and @t{k, fields} (several per document, other blocks "
+        "in between), constructed as Entry / uc.SubEntry / uc.CopyFieldsEntry with positional, keyword and mixed arguments "
+        "and every parameter left out to which the signature of the tree under test gives a default (inspected at run "
+        "time), copy.copy / copy.deepcopy / uc.as_sub / uc.as_copyfields / a twin of a live entry; all pairs of 27 ways "
+        "(two entries per way alive together) with every entry written to, random worlds, and worlds where births happen "
+        "between the operations; each entry has its own reference dict filled at birth from its text / arguments / "
+        "source, EVERY live entry is compared with its own dict after EVERY step, and at the end every parse and constructor "
+        "call of the session is repeated: the newborn holds what its text / arguments say (worlds without shallow copies "
+        "and without births between operations also against Model/EntryObj.v, op 25). "
         "distinct = distinct (start "
         "entry, operation list) or (block, perturbation); non-trivial = at least one call replaces, removes or misses an "
         "existing key (several entries: a key whose Field object is also held by another entry), or the pair differs in "
-        "exactly one attribute / is a copy; odd streams: an operation addresses a key bound to an object of a Field subclass, or "
+        "exactly one attribute / is a copy; worlds: a new key is written to an entry while another entry built the same way is alive; odd streams: an operation addresses a key bound to an object of a Field subclass, or "
         "the caller edits e.fields")
 TRUSTED = ["field identity is observed through unique start_line tags given to every Field the harness creates",
            "the several-entries streams have no counterpart in the Coq model (the model has no object identity across "
            "entries): they are judged by the Python oracle alone",
            "Field subclasses overriding __len__/__bool__/__eq__/__hash__ and direct edits of the list handed out by "
            "e.fields have no counterpart in the Coq model either (odd-* streams, Python oracle alone)",
+           "worlds (world-* streams): judged by the Python oracle; those whose births all precede the program and that "
+           "contain no shallow copy are built a second time and recorded for Model/EntryObj.v (op 25) as well.  A shallow "
+           "copy shares the field list of its source (copy.copy copies attributes): after a write through one of the two the "
+           "other's reference dict is re-read from e.fields (convention of the caller-edit steps); what a newly parsed entry "
+           "holds is read off the generator's own description of the text (simple braced / quoted / numeric values)",
            "entries with more than 300 fields (big-ops stream) and the big-multi stream are not sent to the Coq model (the "
            "extracted model needs seconds per such case): Python oracle alone",
            "values containing dicts or foreign objects are outside the executable equality model (skipped for the model "
@@ -172,6 +192,9 @@ def generate(rng, tier):
     cases += multi_random(rng, tier, odd=True)
     # 8. SIZE: entries with hundreds / thousands of fields (parsed, constructed, grown and shrunk across 256 / 512 / 1024)
     cases += big_cases(rng, tier)
+    # 9. worlds of entries obtained in every way (parsed from every layout, constructed with every argument form, copies,
+    #    subclasses), every live entry compared with its own reference dict after every step
+    cases += world_cases(__import__("random").Random(rng.random()), tier)
     return cases
 
 
@@ -414,6 +437,244 @@ def multi_random(rng, tier, odd=False):
         if odd:
             inp["multi"] = "odd-" + inp["multi"]
         cases.append({"stream": ("odd-" if odd else "multi-") + ("parsed" if parsed else "random"), "input": inp})
+    return cases
+
+
+# ------------------------------------------------------------------ worlds of entries obtained in every way
+# The property speaks about "an entry"; how the entry came to be is not part of it.  An implementation may however make
+# entries that were BUILT in a certain way share something the caller never sees (a list created once, a cached parse
+# result, a class attribute): each of them alone is a perfect mapping, and a write to one shows up in another.  So the
+# operations run in a session (a "world") of three and more entries obtained in every way the library offers:
+#   ["parse", d, stack, into]   every entry of document d (see world_doc: every layout of an entry, incl. the field-less
+#                               forms @t{k} and @t{k,}; several entries per document; other blocks in between); stack: "raw"
+#                               parse_stack=[] | "default" the default stack | "copymw" the default stack in copy mode;
+#                               into: None, or the number of an earlier parse call whose library is passed as library=
+#                               (the same document may be parsed several times in a session: separate parse calls)
+#   ["ctor", cls, spec, form]   cls(...) for Entry, uc.SubEntry, uc.CopyFieldsEntry; form = {"npos": how many leading
+#                               arguments are positional, "omit": per parameter whether it is left out WHEN THE SIGNATURE
+#                               OF THE TREE UNDER TEST GIVES IT A DEFAULT (inspected at run time), "sl", "raw"}
+#   ["copy", i] ["deepcopy", i] ["as_sub", i] ["as_copyfields", i] ["twin", i]   from the live entry number i
+# Births happen before the program ("births") and, in the world-births stream, also between its operations (a step
+# ["birth", spec]).  Every entry has its own reference dict, filled at birth from what its text / arguments / source
+# say; after EVERY step EVERY live entry is compared with its own dict (entry_vs_dict).  At the end every parse call and
+# constructor call of the session is made once more: the newborn must again be what its text / arguments say.
+WKEYS = ["a", "A", "b", "ab", "title", "Title", "year", "note", "x"]
+WVALS = ["s", "", {"int": 3}, "ß", None]
+W_TYPES = ["article", "Article", "BOOK", "inProceedings", "misc", "a", "x_1", "techreport"]
+W_HWS = ["", "", "", " ", "\t", "  "]
+W_WS = ["", "", " ", " ", "\n", "\n  ", "\t", "\r\n ", "  "]
+W_GAP = ["\n", "\n\n", " ", "", "\r\n", "\t\n", "\n \n"]
+W_INNER = ["v1", "On things", "a, b", "x = y", "{N}ested", "1999", "ß", "A {B} c", "k"]
+W_OTHER = ['@string{s%s = "x"}', "@STRING{S%s = {y}}", '@preamble{"\\newcommand{\\x}{y}"}', "@comment{hello world}",
+           "some free text", "% a remark", "@Comment{nothing, here = {x}}"]
+W_FORMS = ["nocomma", "comma", "fields"]
+W_STACKS = ["raw", "default", "copymw"]
+W_CLASSES = ["Entry", "SubEntry", "CopyFieldsEntry"]
+W_DERIVED = ["copy", "deepcopy", "as_sub", "as_copyfields", "twin"]
+
+
+def world_entry_text(rng, key, form, names):
+    """One entry in a random layout -> (text, spec).  spec["fields"]: [name, value text as written, value without its
+    enclosing] in order."""
+    typ = rng.choice(W_TYPES)
+    buf = ["@", typ, rng.choice(W_HWS), "{", rng.choice(W_WS), key, rng.choice(W_WS)]
+    fields = []
+    if form == "nocomma":
+        buf.append("}")
+    elif form == "comma":
+        buf += [",", rng.choice(W_WS), "}"]
+    else:
+        buf.append(",")
+        for i, name in enumerate(names):
+            inner = rng.choice(W_INNER)
+            r = rng.random()
+            if inner.isdigit() and r < 0.5:
+                val = inner
+            elif r < 0.75:
+                val = "{" + inner + "}"
+            else:
+                val = '"' + inner + '"'
+            buf += [rng.choice(W_WS), name, rng.choice(W_WS), "=", rng.choice(W_WS), val, rng.choice(W_WS)]
+            fields.append([name, val, inner])
+            if i < len(names) - 1 or rng.random() < 0.5:
+                buf.append(",")
+        if buf[-1] == ",":
+            buf.append(rng.choice(W_WS))
+        buf.append("}")
+    return "".join(buf), {"type": typ, "key": key, "form": form, "fields": fields}
+
+
+def world_doc(rng, keys, forms):
+    """A document with one entry per key (forms[i]: its form), other blocks and free text in between."""
+    parts, entries = [rng.choice(W_GAP)], []
+
+    def other(tag):
+        t = rng.choice(W_OTHER)
+        return t % "".join(c for c in tag if c.isalnum()) if "%s" in t else t          # @string names are unique in a session
+    for key, form in zip(keys, forms):
+        if rng.random() < 0.25:
+            parts += [other(key), "\n", rng.choice(W_GAP)]
+        names = rng.sample(WKEYS, rng.randint(1, 3)) if form == "fields" else []
+        text, spec = world_entry_text(rng, key, form, names)
+        parts += [text, rng.choice(W_GAP)]
+        entries.append(spec)
+    if rng.random() < 0.2:
+        parts += ["\n", other("z" + keys[-1]), rng.choice(W_GAP)]
+    return {"text": "".join(parts), "entries": entries}
+
+
+class WorldGen:
+    """Book-keeping of the generator: documents, births, how many entries are alive and of which class."""
+
+    def __init__(self, rng):
+        self.rng = rng
+        self.docs, self.births, self.steps = [], [], []
+        self.classes = []          # class name of every live entry
+        self.calls = []            # per parse call: (stack, set of documents in its library)
+        self.nkey = 0
+        self.line = 0
+
+    def key(self):
+        self.nkey += 1
+        return "k%d%s" % (self.nkey, self.rng.choice(["", "", ":x", ".y", "-z", "_1", "2020"]))
+
+    def new_doc(self, forms):
+        self.docs.append(world_doc(self.rng, [self.key() for _ in forms], forms))
+        return len(self.docs) - 1
+
+    def parse(self, d, stack, into=None):
+        if into is None:
+            self.calls.append((stack, {d}))
+        else:
+            self.calls[into][1].add(d)
+            self.calls.append(self.calls[into])
+        self.classes += ["Entry"] * len(self.docs[d]["entries"])
+        return ["parse", d, stack, into]
+
+    def rand_parse(self):
+        rng = self.rng
+        # a document parsed before, once more (a separate call on the same text) - or a new document
+        if self.docs and rng.random() < 0.2:
+            return self.parse(rng.randrange(len(self.docs)), rng.choice(W_STACKS))
+        n = rng.choice([1, 1, 2, 2, 3, 4])
+        forms = [rng.choice(["nocomma", "nocomma", "comma", "comma", "fields", "fields", "fields"]) for _ in range(n)]
+        d = self.new_doc(forms)
+        raw_calls = [i for i, (st, _) in enumerate(self.calls) if st == "raw"]
+        if raw_calls and rng.random() < 0.25:
+            return self.parse(d, "raw", rng.choice(raw_calls))
+        return self.parse(d, rng.choice(W_STACKS))
+
+    def ctor(self, cls, nf, form):
+        rng = self.rng
+        fs = []
+        for k in rng.sample(WKEYS, nf):
+            self.line += 1
+            fs.append([k, rng.choice(WVALS), self.line])
+        self.classes.append(cls)
+        return ["ctor", cls, {"type": rng.choice(W_TYPES), "key": self.key(), "fields": fs}, form]
+
+    def rand_form(self):
+        rng = self.rng
+        return {"npos": rng.choice([0, 0, 2, 3, 5, rng.randint(0, 5)]), "omit": [rng.random() < 0.6 for _ in range(5)],
+                "sl": rng.choice([None, 0, 7]), "raw": rng.choice([None, "", "@x{y}"])}
+
+    def rand_ctor(self):
+        rng = self.rng
+        return self.ctor(rng.choice(W_CLASSES), rng.choice([0, 0, 0, 1, 2, 3]), self.rand_form())
+
+    def derived(self, kind, src):
+        cls = self.classes[src]
+        if kind in ("as_sub", "as_copyfields") and cls != "Entry":
+            kind = "twin"          # the helpers rebuild plain entries only
+        self.classes.append({"as_sub": "SubEntry", "as_copyfields": "CopyFieldsEntry", "twin": "Entry"}.get(kind, cls))
+        return [kind, src]
+
+    def rand_birth(self):
+        rng = self.rng
+        p = rng.random()
+        if p < 0.4 or not self.classes:
+            return self.rand_parse()
+        if p < 0.7:
+            return self.rand_ctor()
+        return self.derived(rng.choice(W_DERIVED), rng.randrange(len(self.classes)))
+
+    def rand_op(self, j, keys=WKEYS):
+        rng = self.rng
+        ne = len(self.classes)
+        if ne > 1 and rng.random() < 0.08:
+            t, s = rng.sample(range(ne), 2)
+            return ["xfer", t, s, rng.choice(keys)]
+        c = rng.choice([0, 0, 0, 1, 1, 1, 1, 2, 2, 3, 3, 4, 5, 6])
+        k = rng.choice(keys) if rng.random() < 0.95 else rng.choice(["zz", ""])
+        op = mk_op(c, k, 500 + j)
+        if c in (O_SETFIELD, O_SETITEM) and rng.random() < 0.4:
+            op[2] = rng.choice(WVALS)
+        return ["op", rng.randrange(ne), op]
+
+    def case(self, stream):
+        return {"stream": stream, "input": {"multi": "world", "world": stream, "docs": self.docs, "births": self.births,
+                                            "steps": self.steps, "absent": WKEYS}}
+
+
+def world_ways():
+    """The catalogue of the exhaustive part: every way of obtaining an entry from nothing."""
+    ways = [("parse", form, stack) for form in W_FORMS for stack in W_STACKS]
+    ways += [("ctor", cls, nf, style) for cls in W_CLASSES for nf in (0, 2) for style in ("pos", "kw", "min")]
+    return ways
+
+
+def world_cases(rng, tier):
+    """rng: the generator of this stream alone"""
+    cases = []
+    quick = tier == "quick"
+    ways = world_ways()
+
+    def born(g, way):
+        if way[0] == "parse":
+            return g.parse(g.new_doc([way[1]]), way[2])
+        style = way[3]
+        form = {"npos": {"pos": 5, "kw": 0, "min": rng.choice([0, 2])}[style],
+                "omit": [style == "min"] * 5, "sl": rng.choice([None, 4]), "raw": rng.choice([None, "@r{}"])}
+        return g.ctor(way[1], way[2], form)
+
+    # a. every pair of ways (twice each: A, B, A, B - so two entries built the same way and two built differently are
+    #    alive together), one derived entry, every entry written to, then a few random operations
+    for rep in range(1 if quick else 4):
+        for i, wa in enumerate(ways):
+            for j, wb in enumerate(ways[i:]):
+                g = WorldGen(rng)
+                if wa[0] == wb[0] == "parse" and wa[2] == wb[2]:
+                    # the same stack: both forms in ONE document, and a second such document in a later call
+                    g.births = [g.parse(g.new_doc([wa[1], wb[1]]), wa[2]), g.parse(g.new_doc([wa[1], wb[1]]), wa[2])]
+                else:
+                    g.births = [born(g, wa), born(g, wb), born(g, wa), born(g, wb)]
+                g.births.append(g.derived(W_DERIVED[(i + j + rep) % len(W_DERIVED)], rng.randrange(4)))
+                ne = len(g.classes)
+                order = list(range(ne))
+                rng.shuffle(order)
+                for n, t in enumerate(order):
+                    op = mk_op(O_SETFIELD if (n + rep) % 2 else O_SETITEM, rng.choice(WKEYS), 400 + n)
+                    g.steps.append(["op", t, op])
+                for n in range(rng.randint(2, 6)):
+                    g.steps.append(g.rand_op(n))
+                cases.append(g.case("world-exh"))
+    # b. random worlds, all births before the program (compared with Model/EntryObj.v as well unless a shallow copy is
+    #    among the entries); c. births between the operations (Python oracle alone)
+    for stream, n_cases in (("world-random", 500 if quick else 10000), ("world-births", 350 if quick else 7000)):
+        for _ in range(n_cases):
+            g = WorldGen(rng)
+            while len(g.classes) < 3 or (len(g.classes) < 7 and rng.random() < 0.3):
+                g.births.append(g.rand_birth())
+            keys = WKEYS if rng.random() < 0.5 else rng.sample(WKEYS, 3)          # a small pool: keys collide more often
+            for n in range(rng.randint(3, 14)):
+                if stream == "world-births" and len(g.classes) < 10 and rng.random() < 0.22:
+                    g.steps.append(["birth", g.rand_birth()])
+                else:
+                    g.steps.append(g.rand_op(n, keys))
+            if stream == "world-births" and not any(st[0] == "birth" for st in g.steps):
+                g.steps.append(["birth", g.rand_birth()])
+                g.steps.append(g.rand_op(99, keys))
+            cases.append(g.case(stream))
     return cases
 
 
@@ -825,13 +1086,321 @@ def entry_vs_dict(e, ref, log, etype, ekey, Field, absent):
     return None
 
 
+_SIGNATURES = {}
+
+
+class World:
+    """The live entries of a world case (see world_cases) with their reference dicts; birth() obtains new ones."""
+
+    def __init__(self, inp, log, entries, refs, heads):
+        self.inp, self.log = inp, log
+        self.entries, self.refs, self.heads = entries, refs, heads
+        self.libs = []          # per parse call: the library it returned
+        self.group = {}         # entry number -> alias group (shallow copies share the field list of their source)
+        self.sig = {}           # entry number -> how it was built
+        self.tags = set()
+        self.again = []         # parse / constructor births of the session, repeated by epilogue()
+        self.same_way_written = False
+
+    # ---- helpers
+    def _add(self, e, ref, head, sig, group=None):
+        n = len(self.entries)
+        self.entries.append(e)
+        self.refs.append(ref)
+        self.heads.append(head)
+        self.sig[n] = sig
+        self.group[n] = ("solo", n) if group is None else group
+        return n
+
+    def _parse(self, d, stack, library):
+        import bibtexparser
+        from bibtexparser.middlewares.parsestack import default_parse_stack
+        text = self.inp["docs"][d]["text"]
+        kw = {}
+        if stack == "raw":
+            kw["parse_stack"] = []
+        elif stack == "copymw":
+            kw["parse_stack"] = default_parse_stack(allow_inplace_modification=False)
+        if library is not None:
+            kw["library"] = library
+        return bibtexparser.parse_string(text, **kw)
+
+    def _newborn_parsed(self, e, spec, stack, d):
+        """None, or what is wrong with the entry e just parsed from the text described by spec"""
+        from bibtexparser.model import Entry, Field
+        text = self.inp["docs"][d]["text"]
+        if type(e) is not Entry or e.key != spec["key"]:
+            return "document %r: expected the entry `%s`, got %r" % (text, spec["key"], e)
+        fs = e.fields
+        want = [(f[0], f[1] if stack == "raw" else f[2]) for f in spec["fields"]]
+        got = [(f.key, f.value) if isinstance(f, Field) else f for f in fs] if isinstance(fs, list) else fs
+        if got != want:
+            return ("the entry `%s` parsed (%s stack) from %r starts with the fields %r; its text names %r (an entry just "
+                    "parsed holds what its own text says, whatever was done to other entries before)" % (
+                        spec["key"], stack, text, brief(got), want))
+        return None
+
+    def _ctor(self, cls_name, spec, form, fields):
+        """-> (entry, names of the parameters left out) or (None, why)"""
+        import inspect
+        from props import userclasses
+        from bibtexparser.model import Entry
+        uc = userclasses.get()
+        cls = {"Entry": Entry, "SubEntry": uc.SubEntry, "CopyFieldsEntry": uc.CopyFieldsEntry}[cls_name]
+        vals = {"entry_type": spec["type"], "key": spec["key"], "fields": fields, "start_line": form["sl"], "raw": form["raw"]}
+        args, kwargs, omitted, positional = [], {}, [], True
+        P = inspect.Parameter
+        if cls not in _SIGNATURES:          # read off the class of the tree under test, once per process
+            _SIGNATURES[cls] = list(inspect.signature(cls).parameters.values())
+        for i, p in enumerate(_SIGNATURES[cls]):
+            if p.kind in (P.VAR_POSITIONAL, P.VAR_KEYWORD):
+                continue
+            optional = p.default is not P.empty
+            if p.name not in vals:
+                if not optional:
+                    return None, "parameter %r of %s is not one the generator knows" % (p.name, cls_name)
+                omitted.append(p.name)
+                positional = False
+            elif optional and form["omit"][i % len(form["omit"])]:
+                omitted.append(p.name)
+                positional = False
+            elif positional and i < form["npos"] and p.kind in (P.POSITIONAL_ONLY, P.POSITIONAL_OR_KEYWORD):
+                args.append(vals[p.name])
+            elif p.kind == P.POSITIONAL_ONLY:
+                return None, "positional-only parameter %r after an omitted one" % p.name
+            else:
+                kwargs[p.name] = vals[p.name]
+                positional = False
+        self.tags.add("world:ctor-" + ("positional" if not kwargs else "keyword" if not args else "mixed"))
+        for name in omitted:
+            self.tags.add("world:ctor-omitted-" + name)
+        return cls(*args, **kwargs), omitted
+
+    def _newborn_ctor(self, e, cls_name, spec, fields, omitted):
+        from bibtexparser.model import Field
+        want = [] if "fields" in omitted else fields
+        fs = e.fields
+        if not isinstance(fs, list) or len(fs) != len(want) or not all(a is b for a, b in zip(fs, want)):
+            got = [(f.key, f.value) if isinstance(f, Field) else f for f in fs] if isinstance(fs, list) else fs
+            return ("%s(%r, %r, %s) starts with the fields %r (an entry just constructed holds the fields it was given, "
+                    "whatever was done to other entries before)" % (
+                        cls_name, spec["type"], spec["key"], "no fields argument" if "fields" in omitted else
+                        "fields=%r" % [(f.key, f.value) for f in fields], brief(got)))
+        return None
+
+    # ---- births
+    def birth(self, b, replay=False):
+        """Obtain the entries described by b; None or a complaint."""
+        import copy
+        import implutil
+        from props import userclasses
+        from bibtexparser.model import Entry
+        kind = b[0]
+        if kind == "parse":
+            _, d, stack, into = b
+            doc = self.inp["docs"][d]
+            into = into if into is not None and into < len(self.libs) else None
+            before = set(id(x) for x in self.libs[into].blocks) if into is not None else set()
+            r = implutil.guarded(lambda: self._parse(d, stack, self.libs[into] if into is not None else None))
+            if r[0] == "exc":
+                return "parsing %r raised %s" % (doc["text"], r[2])
+            lib = r[1]
+            self.libs.append(lib)
+            new = [x for x in lib.entries if id(x) not in before]
+            if len(new) != len(doc["entries"]) or lib.failed_blocks:
+                return "document %r with %d entries gave the entries %r and the failed blocks %r" % (
+                    doc["text"], len(doc["entries"]), new, lib.failed_blocks)
+            self.tags.add("world:parse-stack-" + stack)
+            if into is not None:
+                self.tags.add("world:parse-into-earlier-library")
+            if any(a[0] == "parse" and a[1] == d for a in self.again):
+                self.tags.add("world:parse-same-text-again")
+            self.again.append(b)
+            for e, spec in zip(new, doc["entries"]):
+                msg = self._newborn_parsed(e, spec, stack, d)
+                if msg:
+                    return msg
+                for f in e.fields:
+                    self.log.see(f, "that the parsed entry `%s` started with" % spec["key"])
+                self.tags.add("world:parse-" + spec["form"])
+                self._add(e, {f.key: f for f in e.fields}, (e.entry_type, e.key), "parse:" + spec["form"])
+            return None
+        if kind == "ctor":
+            _, cls_name, spec, form = b
+            fields = [mk_field(f) for f in spec["fields"]]
+            r = implutil.guarded(lambda: self._ctor(cls_name, spec, form, list(fields)))
+            if r[0] == "exc":
+                return "constructing %s with arguments its signature accepts raised %s" % (cls_name, r[2])
+            e, omitted = r[1]
+            if e is None:
+                self.tags.add("world:ctor-signature-not-understood")
+                return None
+            msg = self._newborn_ctor(e, cls_name, spec, fields, omitted)
+            if msg:
+                return msg
+            self.again.append(b)
+            self.tags.add("world:ctor-" + cls_name)
+            live = [] if "fields" in omitted else fields
+            for f in live:
+                self.log.see(f, "that the constructed entry `%s` started with" % spec["key"])
+            self._add(e, {f.key: f for f in live}, (spec["type"], spec["key"]),
+                      "ctor:%s:%s" % (cls_name, "omitted" if "fields" in omitted else "given" if live else "empty"))
+            return None
+        # ---- from a live entry
+        s = b[1] % len(self.entries)
+        src, ref = self.entries[s], self.refs[s]
+        uc = userclasses.get()
+        if kind in ("as_sub", "as_copyfields") and type(src) is not Entry:
+            kind = "twin"
+        self.tags.add("world:" + kind)
+        if kind == "copy":
+            c = copy.copy(src)
+            if type(c) is not type(src) or c is src or not (c == src and src == c) or c != src:
+                return "copy.copy of entry %d does not compare equal to it (or is not a new object of its class)" % s
+            self._add(c, dict(ref), self.heads[s], "copy", self.group[s])
+            return None
+        if kind == "deepcopy":
+            c = copy.deepcopy(src)
+            if type(c) is not type(src) or c is src or not (c == src and src == c) or c != src:
+                return "copy.deepcopy of entry %d does not compare equal to it (or is not a new object of its class)" % s
+            fs = c.fields
+            if [(f.key, f.value) for f in fs] != [self.log.content(w)[:2] for w in ref.values()]:
+                return "copy.deepcopy of entry %d shows the fields %r, the mapping of the original holds %r" % (
+                    s, brief([(f.key, f.value) for f in fs]), brief([self.log.content(w)[:2] for w in ref.values()]))
+            for f in fs:
+                self.log.see(f, "of the deep copy of entry %d" % s)
+            self._add(c, {f.key: f for f in fs}, self.heads[s], "deepcopy")
+            return None
+        if kind == "as_sub":
+            c = uc.as_sub(src)
+        elif kind == "as_copyfields":
+            c = uc.as_copyfields(src)
+        else:
+            c = Entry(src.entry_type, src.key, list(src.fields), src.start_line, src.raw)
+        self._add(c, dict(ref), self.heads[s], kind)
+        return None
+
+    # ---- during the program
+    def note_write(self, t, k):
+        """entry t is about to get the new key k"""
+        if k not in self.refs[t] and any(self.sig.get(j) == self.sig.get(t) for j in range(len(self.entries)) if j != t):
+            self.same_way_written = True
+
+    def after_mutation(self, t):
+        """Shallow copies hold the very field list of their source (copy.copy copies attributes, not what they refer to):
+        what a write through one of them does to the others is Python's business, not the property's.  Their reference
+        dicts are re-read from e.fields (the convention of the `edit` steps): the views must still agree with each other."""
+        for j in range(len(self.entries)):
+            if j != t and self.group.get(j, ("solo", j)) == self.group.get(t, ("solo", t)):
+                now = self.entries[j].fields
+                for x in now:
+                    self.log.see(x, "listed by the shallow copy / original number %d" % j)
+                self.refs[j] = {x.key: x for x in now}
+
+    def epilogue(self):
+        """Every parse call and constructor call of the session once more: the newborn is what its text / arguments say."""
+        import implutil
+        for b in self.again:
+            if b[0] == "parse":
+                _, d, stack, _ = b
+                doc = self.inp["docs"][d]
+                r = implutil.guarded(lambda: self._parse(d, stack, None))
+                if r[0] == "exc":
+                    return "parsing %r again at the end of the session raised %s" % (doc["text"], r[2])
+                new = list(r[1].entries)
+                if len(new) != len(doc["entries"]):
+                    return "document %r parsed again at the end of the session gave the entries %r" % (doc["text"], new)
+                for e, spec in zip(new, doc["entries"]):
+                    msg = self._newborn_parsed(e, spec, stack, d)
+                    if msg:
+                        return "parsed again at the end of the session: " + msg
+            else:
+                _, cls_name, spec, form = b
+                fields = [mk_field(f) for f in spec["fields"]]
+                r = implutil.guarded(lambda: self._ctor(cls_name, spec, form, list(fields)))
+                if r[0] == "exc":
+                    return "constructing %s again at the end of the session raised %s" % (cls_name, r[2])
+                e, omitted = r[1]
+                msg = self._newborn_ctor(e, cls_name, spec, fields, omitted)
+                if msg:
+                    return "constructed again at the end of the session: " + msg
+        return None
+
+
+def world_model_steps(inp):
+    """The program of a world case in the vocabulary of obj_run, or None if op 25 cannot express it."""
+    if any(b[0] == "copy" for b in inp["births"]):
+        return None          # a shallow copy shares the field list itself; the model's entries each have their own
+    out = []
+    for st in inp["steps"]:
+        if st[0] == "xfer":
+            out.append(["xfer", st[1], st[2], st[3]])
+        elif st[0] == "op":
+            t, op = st[1], st[2]
+            code, k = op[0], op[1]
+            if code == O_SETFIELD:
+                out.append(["new", t, k, unjv(op[2]), op[3]])
+            elif code == O_SETITEM:
+                out.append(["setitem", t, k, unjv(op[2])])
+            elif code in (O_POP, O_GET):
+                out.append(["pop" if code == O_POP else "get", t, k, None if op[2] is None else unjv(op[2]["v"])])
+            elif code == O_DEL:
+                out.append(["del", t, k])
+            elif code == O_IN:
+                out.append(["in", t, k])
+            else:
+                out.append(["getitem", t, k])
+        else:
+            return None
+    return out
+
+
+def impl_world(case):
+    """Python oracle on the session (impl_multi); then, where op 25 can express the case, the same births and program on
+    fresh objects, recorded for the comparison with Model/EntryObj.v."""
+    rec = impl_multi(case)
+    inp = case["input"]
+    steps = world_model_steps(inp) if rec["oracle"]["ok"] else None
+    if steps is None:
+        return rec
+    entries = []
+    w = World(inp, FieldLog(), entries, [], [])
+    for b in inp["births"]:
+        msg = w.birth(b)
+        if msg:
+            rec["oracle"] = {"ok": False, "detail": "the births of this world made a second time in the same process: " + msg}
+            return rec
+    objs, seen = [], set()
+    for e in entries:
+        for f in e.fields:
+            if id(f) not in seen:
+                seen.add(id(f))
+                objs.append(f)
+    n = len(entries)
+    steps = [[st[0], st[1] % n] + ([st[2] % n] if st[0] == "xfer" else [st[2]]) + st[3:] for st in steps]
+    r = obj_run(entries, objs, steps)
+    rec["sx_in"], rec["sx_out"] = r["sx_in"], r["sx_out"]
+    if not r["oracle"]["ok"]:
+        rec["oracle"] = r["oracle"]
+    rec["tags"] = rec["tags"] + ["world:compared-with-model"]
+    return rec
+
+
 def impl_multi(case):
     import implutil
     from bibtexparser.model import Entry, Field
     inp = case["input"]
     log = FieldLog()
     entries = []
-    if "bib" in inp:
+    refs, heads = [], []
+    world, birth_msg = None, None
+    if "world" in inp:
+        world = World(inp, log, entries, refs, heads)
+        for b in inp["births"]:
+            birth_msg = world.birth(b)
+            if birth_msg:
+                break
+    elif "bib" in inp:
         blocks = parsed_blocks(inp["bib"])
         for ix in inp["indexes"]:
             e = blocks[ix % len(blocks)]
@@ -845,8 +1414,7 @@ def impl_multi(case):
             fs = [built[x["share"][0]][x["share"][1]] if isinstance(x, dict) else mk_field(x) for x in st["fields"]]
             built.append(list(fs))
             entries.append(Entry(st["type"], st["key"], fs, start_line=0, raw=None))
-    refs, heads = [], []
-    for i, e in enumerate(entries):
+    for i, e in enumerate(entries if world is None else []):
         keys = [f.key for f in e.fields]
         assert len(set(keys)) == len(keys) and not any(k in RESERVED for k in keys), "generator: start entry outside the hypothesis"
         for f in e.fields:
@@ -862,14 +1430,22 @@ def impl_multi(case):
     tags = ["multi", "multi:" + inp["multi"]]
 
     def fail(n, step, msg):
-        return False, "step %d %r of %r: %s" % (n, step, inp["steps"], msg)
+        return False, "%sstep %d %r of %r: %s" % ("births %r, " % (inp["births"],) if world else "", n, step, inp["steps"], msg)
 
     def others_hold(t, k):
         return k in refs[t] and any(refs[t][k] is w for j, r in enumerate(refs) if j != t for w in r.values())
 
-    for n, step in enumerate(inp["steps"]):
+    if birth_msg:
+        ok, detail = False, "births %r: %s" % (inp["births"], birth_msg)
+    for n, step in enumerate(inp["steps"] if ok and entries else []):
         acted = None
-        if step[0] == "twin":
+        if step[0] == "birth":
+            world.tags.add("world:birth-between-operations")
+            msg = world.birth(step[1])
+            if msg:
+                ok, detail = fail(n, step, msg)
+                break
+        elif step[0] == "twin":
             s = step[1] % len(entries)
             src = entries[s]
             entries.append(Entry(src.entry_type, src.key, list(src.fields), src.start_line, src.raw))
@@ -885,6 +1461,8 @@ def impl_multi(case):
                 acted = t
                 f = r[1]
                 shared_hit |= others_hold(t, k)
+                if world:
+                    world.note_write(t, k)
                 r = implutil.guarded(lambda: entries[t].set_field(f))
                 if r[0] == "exc" or r[1] is not None:
                     ok, detail = fail(n, step, "entry %d: set_field gave %r" % (t, r[-1]))
@@ -1007,6 +1585,8 @@ def impl_multi(case):
             assert k not in RESERVED, "generator: reserved key"
             if code in MUTATORS:
                 shared_hit |= others_hold(t, k)
+                if world and code in (O_SETFIELD, O_SETITEM):
+                    world.note_write(t, k)
             odd_hit |= k in ref and type(ref[k]) is not Field
             if code == O_SETFIELD:
                 f = mk_field(op[1:])
@@ -1074,6 +1654,8 @@ def impl_multi(case):
                     t, r[-1], brief([log.content(w)[:2] for w in ref.values()])))
                 break
         big_hit |= acted is not None and len(refs[acted]) > 256
+        if world and acted is not None:
+            world.after_mutation(acted)
         # ---- after every step: every entry against its own dict, and every Field object ever seen against its content
         for j, e in enumerate(entries):
             try:
@@ -1091,13 +1673,22 @@ def impl_multi(case):
                 ok, detail = fail(n, step, msg)
         if not ok:
             break
+    if world:
+        if ok:
+            msg = world.epilogue()
+            if msg:
+                ok, detail = False, "births %r, steps %r: %s" % (inp["births"], inp["steps"], msg)
+        tags += sorted(world.tags)
+        if world.same_way_written:
+            tags.append("world:new-key-written-while-another-entry-built-the-same-way-is-alive")
     if shared_hit:
         tags.append("multi:shared-key-written-or-removed")
     if odd_hit:
         tags.append("multi:key-bound-to-field-subclass-object-or-list-edited")
     if big_hit:
         tags.append("multi:entry-with-more-than-256-fields-operated-on")
-    return {"sx_in": None, "sx_out": None, "oracle": {"ok": ok, "detail": detail}, "nontrivial": bool(shared_hit or odd_hit or big_hit),
+    return {"sx_in": None, "sx_out": None, "oracle": {"ok": ok, "detail": detail},
+            "nontrivial": bool(shared_hit or odd_hit or big_hit or (world and world.same_way_written)),
             "key": json.dumps(inp, sort_keys=True), "tags": tags,
             "summary": repr([[(f.key, f.value) for f in e.fields] for e in entries])[:200]}
 
@@ -1347,15 +1938,25 @@ def gen_obj_program(rng):
 
 
 def impl_obj(case):
-    import enc
-    import implutil
     from bibtexparser.model import Entry, Field
-    S = enc.enc_str
     d = case["input"]["objprog"]
     objs = [Field(k, v, ln) for k, v, ln in d["objs"]]
+    ents = [Entry(t, k, [objs[i] for i in fl]) for t, k, fl in d["entries"]]
+    rec = obj_run(ents, objs, d["prog"])
+    rec.update({"key": json.dumps(d), "nontrivial": len(ents) > 1 or len(d["prog"]) > 2, "tags": ["objprog"]})
+    return rec
+
+
+def obj_run(ents, objs, steps):
+    """Execute an object-level program on the entries ents (objs: the Field objects that exist before the program, oldest
+    first; every object held by an entry must be among them) and record it in the wire form of op 25."""
+    import enc
+    import implutil
+    from bibtexparser.model import Field
+    S = enc.enc_str
+    d = {"prog": steps}
     ids = {id(o): i + 1 for i, o in enumerate(objs)}
     keep = list(objs)
-    ents = [Entry(t, k, [objs[i] for i in fl]) for t, k, fl in d["entries"]]
     store = [[ids[id(o)], enc.enc_field(o)] for o in objs]
     sx_e = [[S(e.entry_type), S(e.key), [ids[id(f)] for f in e.fields]] for e in ents]
     nxt = [len(objs) + 1]
@@ -1369,13 +1970,30 @@ def impl_obj(case):
     def res_of(r):
         if r is None:
             return [0]
-        return [2, enc.enc_value(r)] if isinstance(r, str) else [1, ids[id(r)], enc.enc_field(r)]
+        return [2, enc.enc_value(r)] if not isinstance(r, Field) else [1, ids[id(r)], enc.enc_field(r)]
     prog, expect = [], []
+
+    def snap(res):
+        views = [[[ids[id(f)] for f in x.fields], [enc.enc_field(f) for f in x.fields],
+                  [[S(kk), ids[id(f)]] for kk, f in x.fields_dict.items()],
+                  [[S(kk), enc.enc_value(v)] for kk, v in x.items()]] for x in ents]
+        objs_now = [[ids[id(o2)], enc.enc_field(o2)] for o2 in sorted(keep, key=lambda o2: ids[id(o2)])]
+        expect.append([res, views, objs_now])
 
     def run():
         for st in d["prog"]:
             res = [0]
             op = st[0]
+            if op == "xfer":          # ents[t].set_field(ents[s].get(k)) when the key is present: two steps of the program
+                t, s_, k = st[1], st[2], st[3]
+                r = ents[s_].get(k)
+                prog.append([0, s_, [4, S(k), []]])
+                snap(res_of(r))
+                if r is not None and t != s_:
+                    ents[t].set_field(r)
+                    prog.append([0, t, [7, ids[id(r)]]])
+                    snap([0])
+                continue
             if op in ("setobj", "oval", "okey"):
                 if not keep:
                     continue
@@ -1417,14 +2035,9 @@ def impl_obj(case):
             else:
                 o.key = st[2]
                 prog.append([2, ids[id(o)], S(st[2])])
-            views = [[[ids[id(f)] for f in x.fields], [enc.enc_field(f) for f in x.fields],
-                      [[S(kk), ids[id(f)]] for kk, f in x.fields_dict.items()],
-                      [[S(kk), enc.enc_value(v)] for kk, v in x.items()]] for x in ents]
-            objs_now = [[ids[id(o2)], enc.enc_field(o2)] for o2 in sorted(keep, key=lambda o2: ids[id(o2)])]
-            expect.append([res, views, objs_now])
+            snap(res)
     g = implutil.guarded(run)
-    rec = {"key": json.dumps(d), "nontrivial": len(ents) > 1 or len(d["prog"]) > 2, "tags": ["objprog"],
-           "sx_in": [25, store, sx_e, prog]}
+    rec = {"sx_in": [25, store, sx_e, prog]}
     if g[0] == "exc":
         rec["sx_out"] = implutil.r_exc(g[1])
         rec["oracle"] = {"ok": False, "detail": "%s raised by a mapping call of an object-level program" % g[2]}
@@ -1442,6 +2055,8 @@ def impl(case):
         return impl_obj(case)
     if "eq" in case["input"]:
         return impl_eq(case)
+    if "world" in case["input"]:
+        return impl_world(case)
     if "multi" in case["input"]:
         return impl_multi(case)
     return impl_ops(case)
